@@ -1,3 +1,202 @@
+import LitexProofs.Clock.Params
+import LitexProofs.Clock.QRat
 import LitexModel.Generated.ClockRanges
+/-
+  C20 — Computed PLL/clock configurations meet the request and the device limits.
+
+  Models (LitexModel/Clock/*): the `compute_config` searches of the clocking helpers as nested `List.findSome?`
+  loops in the Python iteration order, over exact rationals (`Q`), parametrised by a device range table
+  (`XDev`, `EDev`, `IDev`, `NDev`; the tables of the real classes are regenerated into
+  `LitexModel/Generated/ClockRanges.lean` on every run).  `…Valid dev req cfg` (LitexModel/Clock/Spec.lean) is the
+  conclusion of the property, stated on the returned configuration only.
+
+  Every theorem quantifies over ALL device tables (hence all vendors' classes, speed grades and any future change of
+  a range), all input frequencies and all lists of (frequency, phase, margin) requests.
+  Covered by theorems: Xilinx generic search (S6PLL, S6DCM, S7PLL, S7MMCM, USPLL, USMMCM, USPPLL) and USPMMCM,
+  ECP5, iCE40, NX.  Intel, Gowin GW1N/GW2A, NXOSCA, GW1NOSC: model + correspondence only.
+-/
 namespace Litex.C20
+open Litex.Clock
+
+/-! ## Meaning of the atoms of `Valid` over ℚ -/
+
+/-- The margin test used by every search and by `Valid` is `|clk − f| ≤ f·m` over the rationals. -/
+theorem within_is_margin_test (clk : Q) (o : Out) (hc : 0 < clk.den) (hf : 0 < o.freq.den) (hm : 0 < o.margin.den) :
+    within clk o = true ↔ |clk.toRat - o.freq.toRat| ≤ o.freq.toRat * o.margin.toRat :=
+  within_iff_rat clk o hc hf hm
+
+/-- The window test is `lo ≤ x ≤ hi` over the rationals. -/
+theorem inRange_is_window_test (lo hi x : Q) (h1 : 0 < lo.den) (h2 : 0 < hi.den) (h3 : 0 < x.den) :
+    inRange lo hi x = true ↔ lo.toRat ≤ x.toRat ∧ x.toRat ≤ hi.toRat :=
+  inRange_iff_rat lo hi x h1 h2 h3
+
+/-- `clkdiv_range(start, stop, step)` yields exactly the values `start + i·step` below `stop`. -/
+theorem clkdiv_range_enumerates (r : DivRange) (hs : 0 < r.s) (q : Q) :
+    q ∈ r.toList ↔ ∃ i, r.a + i * r.s < r.b ∧ q = ⟨r.a + i * r.s, r.k⟩ :=
+  DivRange.mem_toList hs
+
+/-! ## Xilinx (`XilinxClocking.compute_config`, `USPMMCM.compute_config`) -/
+
+/-- search_sound: a returned configuration is valid. -/
+theorem xilinx_search_sound (d : XDev) (r : XReq) (c : XCfg) (h : xSearch d r = some c) : XValid d r c :=
+  xSearch_sound h
+
+/-- search_complete: "No PLL config found" only if no configuration of the declared grid is valid. -/
+theorem xilinx_search_complete (d : XDev) (r : XReq) (h : xSearch d r = none) : ∀ c, ¬ XValid d r c :=
+  xSearch_complete h
+
+/-- search_first: the returned (input divider, multiplier) is the first valid pair in iteration order, and the
+    dividers are exactly the per-output scan at that VCO. -/
+theorem xilinx_search_first (d : XDev) (r : XReq) (c : XCfg) (h : xSearch d r = some c) :
+    ∃ dcs₁ dcs₂ ms₁ ms₂, d.divclks = dcs₁ ++ c.divclk :: dcs₂ ∧ d.multList = ms₁ ++ c.mult :: ms₂ ∧
+      (∀ c', XValid d r c' → c'.divclk ∉ dcs₁) ∧
+      (∀ c', XValid d r c' → c'.divclk = c.divclk → c'.mult ∉ ms₁) ∧
+      xOuts d (c.vco r) 0 r.outs = some c.ds :=
+  xSearch_first h
+
+/-- … and for an output with a single declared divider range the divider is the first acceptable one. -/
+theorem xilinx_divider_first (d : XDev) (vco : Q) (n : Nat) (o : Out) (rg : List Q) (dv : Q)
+    (h : d.rangesFor n = [rg]) (hs : xOut d vco n o = some dv) :
+    ∃ pre suf, rg = pre ++ dv :: suf ∧ d.ok vco o dv = true ∧ ∀ x ∈ pre, d.ok vco o x = false :=
+  xOut_single_first h hs
+
+/-- Shape of the regenerated tables: positive steps everywhere, and every output has a single divider range except
+    output 0 of S7MMCM (integer range + fractional 1/8 range). -/
+theorem xilinx_tables_shape :
+    ∀ e ∈ Gen.xilinx, 0 < e.2.2.mults.s ∧ 0 < e.2.2.mults.k ∧ 0 < e.2.2.common.s ∧ 0 < e.2.2.common.k ∧
+      ∀ n ∈ List.range e.2.2.nmax, ((e.2.2.rangesFor n).length = 1 ∨ (e.1.startsWith "S7MMCM" ∧ n = 0)) := by
+  decide +kernel
+
+/-- params_match (PLL/MMCM): the primitive's output `clkin·CLKFBOUT_MULT/(DIVCLK_DIVIDE·CLKOUTn_DIVIDE)` is the
+    configured `vco/dₙ`; the placed numbers are the configuration's. -/
+theorem xilinx_params_match (r : XReq) (c : XCfg) :
+    (xParams .pll r c).take 2 = [("CLKFBOUT_MULT", c.mult.toSQ), ("DIVCLK_DIVIDE", (Q.ofNat c.divclk).toSQ)] ∧
+    (xParams .mmcm r c).take 2 = [("CLKFBOUT_MULT_F", c.mult.toSQ), ("DIVCLK_DIVIDE", (Q.ofNat c.divclk).toSQ)] ∧
+    ∀ dn : Q, ((r.clkin.mul c.mult).div ((Q.ofNat c.divclk).mul dn)).beq ((c.vco r).div dn) = true :=
+  ⟨rfl, rfl, pll_freq r c⟩
+
+/-- params_match (S6DCM): `CLKFX_MULTIPLY = mult`, `CLKFX_DIVIDE = d₀·divclk`, and
+    `clkin·CLKFX_MULTIPLY/CLKFX_DIVIDE` is the configured output frequency. -/
+theorem s6dcm_params_match (r : XReq) (c : XCfg) (d0 : Q) (ds : List Q) (h : c.ds = d0 :: ds) :
+    xParams .s6dcm r c = [("CLKFX_MULTIPLY", c.mult.toSQ), ("CLKFX_DIVIDE", (d0.mulNat c.divclk).toSQ)] ∧
+    ((r.clkin.mul c.mult).div (d0.mulNat c.divclk)).beq ((c.vco r).div d0) = true := by
+  refine ⟨?_, s6dcm_freq r c d0⟩
+  simp [xParams, h]
+
+/-! non-vacuity: S7MMCM speed grade -1, 100 MHz in, 125 MHz (margin 0) and 200 MHz@90° (margin 1e-2) out. -/
+def s7mmcm : XDev := ((Gen.xilinx.find? (·.1 == "S7MMCM:-1")).map (·.2.2)).getD default
+def reqX : XReq := ⟨⟨100000000, 1⟩, ⟨0, 1⟩, [⟨⟨125000000, 1⟩, ⟨0, 1⟩, ⟨0, 1⟩⟩, ⟨⟨200000000, 1⟩, ⟨90, 1⟩, ⟨1, 100⟩⟩]⟩
+example : xSearch s7mmcm reqX = some ⟨1, ⟨10, 1⟩, [⟨8, 1⟩, ⟨5, 1⟩]⟩ := by decide +kernel
+/-- a refusal: 100 MHz → 123.456789 MHz exactly (margin 0) is impossible on an S6DCM. -/
+def s6dcm : XDev := ((Gen.xilinx.find? (·.1 == "S6DCM:-1")).map (·.2.2)).getD default
+example : xSearch s6dcm ⟨⟨100000000, 1⟩, ⟨0, 1⟩, [⟨⟨123456789, 1⟩, ⟨0, 1⟩, ⟨0, 1⟩⟩]⟩ = none := by decide +kernel
+
+/-! ## Lattice ECP5 (`ECP5PLL.compute_config`, tree with the `clkfb is None` and spare-divider fixes) -/
+
+/-- search_sound (requests never exceed the number of outputs: asserted by `create_clkout`). -/
+theorem ecp5_search_sound (d : EDev) (r : EReq) (c : ECfg) (hn : r.outs.length ≤ d.nmax)
+    (h : eSearch d r = some c) : EValid d r c :=
+  eSearch_sound hn h
+
+/-  Full statement (FALSE on the code, see the witness below):
+      theorem ecp5_search_complete (d r) (h : eSearch d r = none) : ∀ c, ¬ EValid d r c
+    With all `nmax` outputs requested the feedback must be an output whose FIRST matching divider equals the
+    searched feedback divider; a valid setting that needs a later matching divider is refused
+    (known finding C20-ecp5-4out-first-divider). -/
+/-- search_complete, proved when a spare output is left for the feedback. -/
+theorem ecp5_search_complete_partial (d : EDev) (r : EReq) (hsp : r.outs.length < d.nmax)
+    (h : eSearch d r = none) : ∀ c, ¬ EValid d r c :=
+  eSearch_complete_of_spare hsp h
+
+/-- search_first (same hypothesis): no valid configuration uses an earlier CLKI divider. -/
+theorem ecp5_search_first_partial (d : EDev) (r : EReq) (c : ECfg) (hsp : r.outs.length < d.nmax)
+    (h : eSearch d r = some c) :
+    ∃ is₁ is₂, d.clkis = is₁ ++ c.clkiDiv :: is₂ ∧ ∀ c', EValid d r c' → c'.clkiDiv ∉ is₁ :=
+  eSearch_first_of_spare hsp h
+
+/-- Negative witness in the excluded region (real ECP5 table, all 4 outputs requested): 10 MHz in, four outputs of
+    10.13 MHz ± 1.3 % are refused although clki=1, clkfb_div=1, all dividers 40 (VCO 400 MHz, 10.0 MHz out,
+    feedback from output 0) is valid. -/
+def reqE4 : EReq :=
+  let o : EOut := ⟨⟨⟨10130000, 1⟩, ⟨0, 1⟩, ⟨13, 1000⟩⟩, false⟩
+  ⟨⟨10000000, 1⟩, false, [o, o, o, o]⟩
+example : eSearch Gen.ecp5 reqE4 = none ∧ EValid Gen.ecp5 reqE4 ⟨1, 1, 0, [40, 40, 40, 40]⟩ := by decide +kernel
+
+/-- Witness of the fixed finding C20-ecp5-clkfb0 (feedback from output 0 with all outputs used is accepted). -/
+def reqEfb0 : EReq := ⟨⟨25000000, 1⟩, false,
+  [⟨⟨⟨50000000, 1⟩, ⟨0, 1⟩, ⟨1, 1000⟩⟩, false⟩, ⟨⟨⟨800000000, 3⟩, ⟨0, 1⟩, ⟨1, 1000⟩⟩, false⟩,
+   ⟨⟨⟨800000000, 7⟩, ⟨0, 1⟩, ⟨1, 1000⟩⟩, false⟩, ⟨⟨⟨800000000, 11⟩, ⟨0, 1⟩, ⟨1, 1000⟩⟩, false⟩]⟩
+example : eSearch Gen.ecp5 reqEfb0 = some ⟨1, 2, 0, [16, 3, 7, 11]⟩ := by decide +kernel
+/-- non-vacuity of the spare branch: one request, a spare output (index 1) carries the feedback divider. -/
+example : eSearch Gen.ecp5 ⟨⟨100000000, 1⟩, false, [⟨⟨⟨950000000, 3⟩, ⟨0, 1⟩, ⟨1, 1000000000⟩⟩, false⟩]⟩ =
+    some ⟨3, 19, 1, [2, 1]⟩ := by decide +kernel
+
+/-- params_match: every enabled output gets its divider, and `CPHASE`/`FPHASE` recombine to
+    `round(phase·div/45)` (`FPHASE` = low 3 bits, `CPHASE − (div−1)` = the rest). -/
+theorem ecp5_params_match (r : EReq) (c : ECfg) :
+    (eParams r c).length = c.divs.length ∧
+    (∀ n (h : n < c.divs.length), ∃ fp cp, (eParams r c)[n]? = some ((c.divs[n] : Int), fp, cp)) ∧
+    ∀ (p : SQ) (div : Nat), 8 * (eCPhase p div - ((div : Int) - 1)) + eFPhase p div = ePhaseWord p div ∧
+      0 ≤ eFPhase p div ∧ eFPhase p div < 8 :=
+  ⟨eParams_length r c, fun n h => ⟨_, _, eParams_getElem r c n h⟩, ePhase_split⟩
+
+/-! ## Lattice iCE40 (`iCE40PLL.compute_config`) -/
+
+theorem ice40_search_sound (d : IDev) (clkin : Q) (o : Out) (c : ICfg) (h : iSearch d clkin o = some c) :
+    IValid d clkin o c := iSearch_sound h
+
+theorem ice40_search_complete (d : IDev) (clkin : Q) (o : Out) (h : iSearch d clkin o = none) :
+    ∀ c, ¬ IValid d clkin o c := iSearch_complete h
+
+/-- search_first: (DIVR, DIVF, DIVQ) is lexicographically the first valid triple in iteration order. -/
+theorem ice40_search_first (d : IDev) (clkin : Q) (o : Out) (c : ICfg) (h : iSearch d clkin o = some c) :
+    ∃ rs₁ rs₂ fs₁ fs₂ qs₁ qs₂, pyRange d.divrLo d.divrHi = rs₁ ++ c.divr :: rs₂ ∧
+      pyRange d.divfLo d.divfHi = fs₁ ++ c.divf :: fs₂ ∧ pyRange d.divqLo d.divqHi = qs₁ ++ c.divq :: qs₂ ∧
+      (∀ c', IValid d clkin o c' → c'.divr ∉ rs₁) ∧
+      (∀ c', IValid d clkin o c' → c'.divr = c.divr → c'.divf ∉ fs₁) ∧
+      (∀ c', IValid d clkin o c' → c'.divr = c.divr → c'.divf = c.divf → c'.divq ∉ qs₁) :=
+  iSearch_first h
+
+example : iSearch Gen.ice40 ⟨12000000, 1⟩ ⟨⟨48000000, 1⟩, ⟨0, 1⟩, ⟨1, 100⟩⟩ = some ⟨0, 63, 4⟩ := by decide +kernel
+
+/-! ## Lattice NX (`NXPLL.compute_config` / `do_finalize`) -/
+
+/-- search_sound for everything the code checks (dividers, VCO window, margins). -/
+theorem nx_search_sound_nopfd (d : NDev) (r : NReq) (c : NCfg) (h : nSearch d r = some c) : NValidNoPfd d r c :=
+  nSearch_sound h
+
+/-  Full statement (FALSE on the code):  nSearch d r = some c → NValid d r c.
+    `compute_config` never checks the declared `vco_in_freq_range` (known finding C20-nx-pfd-range-unchecked). -/
+/-- search_sound under the hypothesis that the chosen input divider keeps the PFD inside its declared window. -/
+theorem nx_search_sound_partial (d : NDev) (r : NReq) (c : NCfg) (h : nSearch d r = some c)
+    (hpfd : inRange d.pfdMin d.pfdMax (r.clkin.divNat c.clkiDiv) = true) : NValid d r c :=
+  ⟨nSearch_sound h, hpfd⟩
+
+/-- Negative witness (real NX table): 15 MHz in, 401.25 MHz out → clki_div = 2, PFD 7.5 MHz < 10 MHz. -/
+def reqNpfd : NReq := ⟨⟨15000000, 1⟩, [⟨⟨401250000, 1⟩, ⟨0, 1⟩, ⟨0, 1⟩⟩]⟩
+example : nSearch Gen.nx reqNpfd = some ⟨2, 107, [2]⟩ ∧ ¬ NValid Gen.nx reqNpfd ⟨2, 107, [2]⟩ := by decide +kernel
+
+theorem nx_search_complete (d : NDev) (r : NReq) (h : nSearch d r = none) : ∀ c, ¬ NValidNoPfd d r c :=
+  nSearch_complete h
+
+theorem nx_search_first (d : NDev) (r : NReq) (c : NCfg) (h : nSearch d r = some c) :
+    ∃ is₁ is₂ fs₁ fs₂, d.clkis = is₁ ++ c.clkiDiv :: is₂ ∧ d.clkfbs = fs₁ ++ c.clkfbDiv :: fs₂ ∧
+      (∀ c', NValidNoPfd d r c' → c'.clkiDiv ∉ is₁) ∧
+      (∀ c', NValidNoPfd d r c' → c'.clkiDiv = c.clkiDiv → c'.clkfbDiv ∉ fs₁) :=
+  nSearch_first h
+
+/-  Full statement (FALSE on the code): the placed input divider REF_MMD_DIG equals clki_div.
+    `do_finalize` writes the literal "1" (known finding C20-nx-clki-div-not-placed). -/
+/-- params_match: `DIVF = clkfb_div − 1`, `DIVx = div − 1`, `DELx = int((1+p/360)·div) − 1`; the input divider is
+    right only when the search chose `clki_div = 1`. -/
+theorem nx_params_match_partial (r : NReq) (c : NCfg) (h1 : c.clkiDiv = 1) :
+    (nParams r c).1 = c.clkiDiv ∧ (nParams r c).2.1 + 1 = c.clkfbDiv ∧
+    (nParams r c).2.2 = (c.divs.zip r.outs).map fun (dv, o) => ((dv : Int) - 1, nDel o.phase dv) := by
+  obtain ⟨a, b, c'⟩ := nParams_spec r c
+  exact ⟨by rw [a, h1], b, c'⟩
+
+/-- Negative witness (real NX table): 100 MHz in, 425 MHz out → clki_div = 2 but REF_MMD_DIG = 1. -/
+def reqNdiv : NReq := ⟨⟨100000000, 1⟩, [⟨⟨425000000, 1⟩, ⟨0, 1⟩, ⟨0, 1⟩⟩]⟩
+example : nSearch Gen.nx reqNdiv = some ⟨2, 17, [2]⟩ ∧ (nParams reqNdiv ⟨2, 17, [2]⟩).1 ≠ 2 := by decide +kernel
+
 end Litex.C20
